@@ -12,6 +12,7 @@ Decided (tab: writer/reader table agreement over constants and codec structure):
   T4  write_python serialises strings with an escaping serialiser
   T5  wiring: save_json = stringify + encoder, load_json = decoder hook + intify
   +   the dtype string carries byte order and item size (str(dtype) / dtype.str, not dtype.name / .char / .kind); T3 also: writer and reader agree on the csv dialect
+  +   every record the csv reader yields becomes one row (no continue / break / filter on the record in the row loop of read_tsv)
 Not decided: csv quoting, float formatting to the written precision, exec of the parameter file.
 """
 import ast
@@ -867,7 +868,38 @@ def t3_float_cells(ctx):
         ctx.undecided('C18.T3', pf, 'conversion of float cells not recognised (%s)' % [sp for _, sp in convs], convs[0][0])
 
 
+def t3_every_record(ctx):
+    """"read back as the same rows ... missing fields and FULLY EMPTY rows": every record the csv reader yields becomes one row of the result - the row loop of
+    read_tsv has no filter (no continue / break, no condition on the record around the append, no `if` in a row comprehension)."""
+    repo = ctx.repo
+    r = repo.func(M, 'read_tsv')
+    loops = [l for l in r.nodes(ast.For) if isinstance(l.iter, ast.Name) and isinstance(r.unique_def(l.iter.id), ast.Call) and (dotted(r.unique_def(l.iter.id).func) or '').endswith('reader')]
+    comps = [c for c in ast.walk(r.node) if isinstance(c, (ast.ListComp, ast.GeneratorExp)) and any(isinstance(g.iter, ast.Name) and isinstance(r.unique_def(g.iter.id), ast.Call) and
+                                                                                                  (dotted(r.unique_def(g.iter.id).func) or '').endswith('reader') for g in c.generators)]
+    if loops:
+        lp = loops[0]
+        rowv = {n.id for n in ast.walk(lp.target) if isinstance(n, ast.Name)}
+        jumps = [n for b in lp.body for n in ast.walk(b) if isinstance(n, (ast.Continue, ast.Break))]
+        appends = [c for b in lp.body for c in ast.walk(b) if isinstance(c, ast.Call) and q.method_name(c) in ('append', 'extend', 'insert')]
+        guarded = [c for c in appends if any(isinstance(a, ast.If) and q.contains(a, c) and a is not lp and any(isinstance(n, ast.Name) and n.id in rowv for n in ast.walk(a.test)) and
+                                             any(q.contains(lp, a) for _ in [0]) for a in r.ancestors(c))]
+        top = [b for b in lp.body if isinstance(b, ast.Expr) and isinstance(b.value, ast.Call) and q.method_name(b.value) == 'append']
+        ctx.tri(bool(top) and not jumps and not guarded, bool(jumps) or bool(guarded), 'C18.T3', r, (jumps or guarded or top or [lp])[0],
+                'every record of the file becomes one row of the result (the row loop appends unconditionally)',
+                'read_tsv drops some records (`%s` in the row loop): a row that write_tsv wrote - e.g. a fully empty one, a line of bare delimiters - does not come back' %
+                (unparse(r.parent(jumps[0]) if jumps and isinstance(r.parent(jumps[0]), ast.If) else (jumps or guarded)[0])[:70].replace('\n', ' ') if (jumps or guarded) else ''),
+                'the row loop of read_tsv was not recognised')
+    elif comps:
+        c = comps[0]
+        filt = [g for g in c.generators if g.ifs]
+        ctx.tri(not filt, bool(filt), 'C18.T3', r, c, 'every record of the file becomes one row of the result (row comprehension without filter)',
+                'read_tsv drops the records failing `%s`' % (unparse(filt[0].ifs[0]) if filt else ''), '')
+    else:
+        ctx.undecided('C18.T3', r, 'the loop of read_tsv over the csv reader was not found')
+
+
 def run(ctx):
+    ctx.part('C18.T3', t3_every_record)
     t1_array_codec(ctx)
     t2_key_codec(ctx)
     t5_wiring(ctx)
